@@ -338,7 +338,7 @@ static Outcome run_in_child(Engine &engine, const Json &cse, int timeout) {
     const char *t = getenv("TMPDIR");
     std::string base = t ? t : "/tmp";
     char sb[256];
-    snprintf(sb, sizeof sb, "%s/cmi-verif-%d", base.c_str(), (int)pid);
+    snprintf(sb, sizeof sb, "%s/cmi-verif-%07d", base.c_str(), (int)pid);
     rm_rf(sb);
   }
   Outcome o;
@@ -691,7 +691,13 @@ int check_main(int argc, char **argv, Engine &engine) {
       fprintf(stderr, "usage: --replay <file>\n");
       return 2;
     }
-    return do_replay(engine, argv[2]);
+    const int rc = do_replay(engine, argv[2]);
+    if (!g_scratch.empty()) {
+      if (chdir("/")) {
+      }
+      rm_rf(g_scratch);
+    }
+    return rc;
   }
   if (mode == "--case") { // run one case file in-process, print the outcome
     Json c = Json::parse_file(argv[2]);
@@ -860,7 +866,7 @@ int check_main(int argc, char **argv, Engine &engine) {
           const char *t = getenv("TMPDIR");
           std::string base = t ? t : "/tmp";
           char sb[256];
-          snprintf(sb, sizeof sb, "%s/cmi-verif-%d", base.c_str(),
+          snprintf(sb, sizeof sb, "%s/cmi-verif-%07d", base.c_str(),
                    (int)workers[w].pid);
           rm_rf(sb);
           ++stragglers;
@@ -895,7 +901,7 @@ int check_main(int argc, char **argv, Engine &engine) {
         const char *t = getenv("TMPDIR");
         std::string base = t ? t : "/tmp";
         char sb[256];
-        snprintf(sb, sizeof sb, "%s/cmi-verif-%d", base.c_str(), (int)wk.pid);
+        snprintf(sb, sizeof sb, "%s/cmi-verif-%07d", base.c_str(), (int)wk.pid);
         rm_rf(sb);
       }
       if (wk.finished) {
@@ -1157,6 +1163,12 @@ int check_main(int argc, char **argv, Engine &engine) {
   if (evaluations == 0 && exit_code == 0) {
     printf("no run completed\n");
     exit_code = 2;
+  }
+  if (!g_scratch.empty()) {
+    // the parent's own scratch directory (an engine's setup() may create one)
+    if (chdir("/")) {
+    }
+    rm_rf(g_scratch);
   }
   return exit_code;
 }
